@@ -104,6 +104,82 @@ BuildCon(s) ==
       kexp == [i \in 1..p |-> KExps[Draw(R, 50 + i, 1, 7)]]
   IN ConRecord("con", s, A, b, C, kexp)
 
+(* call histories of the constrained routine: 2..4 problems of ONE shape (m, n, p) handed to the routine one after the
+   other, the constraint matrix either REWRITTEN IN PLACE in the same object ("inplace": same address and shape, other
+   entries - what four spline fits in a row or csg_fmatch's blocks do) or passed in a fresh object ("fresh").  The
+   routine is a function: every call must return what the same call made alone returns (HistLaws: the stated
+   properties hold for every call on its own data). *)
+BuildHist(s) ==
+  LET R0 == Stream(s)
+      n  == Draw(R0, 1, 2, 3)
+      p  == Draw(R0, 2, 1, n - 1)
+      m  == Draw(R0, 3, n, 4)
+      L  == Draw(R0, 4, 2, 4)
+  IN [k |-> "hist", s |-> s, m |-> m, n |-> n, p |-> p,
+      calls |-> [c \in 1..L |-> LET R == Stream(s * 8 + c)
+                                 IN ConRecord("call", s * 8 + c, Matrix(R, 10, m, n, -2, 2), Vector(R, 30, m, -3, 3),
+                                              Matrix(R, 40, p, n, -2, 2), [i \in 1..p |-> 0])],
+      mode  |-> [c \in 1..L |-> IF c = 1 \/ Draw(R0, 5 + c, 0, 2) = 0 THEN "fresh" ELSE "inplace"]]
+
+(* ------------------------------ graded spectra (Tikhonov clause) ------------------ *)
+(* A = U diag(sigma) V with rational orthogonal U = N1/d1, V = N2/d2 (integer matrices with orthogonal rows of squared
+   length d^2), sigma_i = 2^(-e_i) or 0 (e_i up to 27: singular values down to 7e-9, exact null directions), r = 2^(-t),
+   t in -10..34 (r from 1e3 down to 6e-11).  Then  A^T A = V^T diag(sigma^2) V  and the solution of the stated normal
+   equations is
+        x = - V^T diag(c) U^T b ,    c_i = sigma_i / (sigma_i^2 + r) = 2^P / (1 + 2^(-Q)),  Q = |t - 2e| >= 0,
+                                     P = e  if t >= 2e  (r <= sigma^2),   P = t - e  otherwise.
+   Numbers like 2^(-54) are outside TLC's integers, so matrix entries and solution components are emitted as TERM LISTS
+   (sums of n/d * 2^(-e)  resp.  n/d * 2^P/(1+2^(-Q))), which the harness converts to doubles.  TLC checks: the N are
+   orthogonal (GrOrtho); the exponent identities that make (sigma^2 + r) c = sigma (GrExponents); and on the
+   sub-family where all integers fit (n = 2, e <= 1, 0 <= t <= 2) the term-list solution satisfies the stated normal
+   equations exactly, cross-multiplied (GrNormalEq). *)
+Ortho2 == << <<<<3, 4>>, <<-4, 3>>>>, <<<<4, -3>>, <<3, 4>>>>, <<<<-3, 4>>, <<4, 3>>>> >>                      \* d = 5
+Ortho3 == << <<<<2, -1, 2>>, <<2, 2, -1>>, <<-1, 2, 2>>>>, <<<<1, 2, 2>>, <<2, 1, -2>>, <<2, -2, 1>>>>,
+             <<<<2, 2, -1>>, <<-1, 2, 2>>, <<2, -1, 2>>>> >>                                                   \* d = 3
+Ortho4 == << <<<<1, 1, 1, 1>>, <<1, -1, 1, -1>>, <<1, 1, -1, -1>>, <<1, -1, -1, 1>>>>,
+             <<<<1, 1, 1, -1>>, <<1, 1, -1, 1>>, <<1, -1, 1, 1>>, <<-1, 1, 1, 1>>>>,
+             <<<<1, -1, -1, -1>>, <<1, 1, 1, -1>>, <<1, -1, 1, 1>>, <<1, 1, -1, 1>>>> >>                       \* d = 2
+OrthoOf(n) == IF n = 2 THEN Ortho2 ELSE IF n = 3 THEN Ortho3 ELSE Ortho4
+OrthoDen(n) == IF n = 2 THEN 5 ELSE IF n = 3 THEN 3 ELSE 2
+GrExps == <<0, 1, 3, 6, 13, 20, 27>>
+NoSigma == -1                                         \* sigma = 0
+CoefP(e, t) == IF t >= 2 * e THEN e ELSE t - e
+CoefQ(e, t) == IF t >= 2 * e THEN t - 2 * e ELSE 2 * e - t
+Max2(a, b) == IF a > b THEN a ELSE b
+Min2(a, b) == IF a < b THEN a ELSE b
+GrRecord(tag, s, n, N1, N2, e, t, b, idx, grid) ==
+  LET d  == OrthoDen(n)
+      w  == [i \in 1..n |-> SumSeq([k \in 1..n |-> N1[k][i] * b[k]])]               \* d1 (U^T b)_i
+      live == {i \in 1..n : e[i] # NoSigma}
+      liveSeq == SortedSeq(live)
+      emin == IF live = {} THEN 0 ELSE CHOOSE a \in {e[i] : i \in live} : \A i \in live : a <= e[i]
+      emax == IF live = {} THEN 0 ELSE CHOOSE a \in {e[i] : i \in live} : \A i \in live : a >= e[i]
+      lo2  == IF Cardinality(live) = n THEN Max2(-2 * emax, -t) ELSE -t              \* log2 of the smallest eigenvalue + r
+  IN [k |-> tag, s |-> s, n |-> n, N1 |-> N1, N2 |-> N2, d |-> d, e |-> e, t |-> t, b |-> b, idx |-> idx, grid |-> grid,
+      \* A[k][l] = sum_i N1[k][i] N2[i][l] / d^2 * 2^(-e_i)
+      Aterms |-> [k \in 1..n |-> [l \in 1..n |-> [q \in 1..Len(liveSeq) |->
+                     [n |-> N1[k][liveSeq[q]] * N2[liveSeq[q]][l], d |-> d * d, e |-> e[liveSeq[q]]]]]],
+      \* x[j] = sum_i (- N2[i][j] w_i) / d^2 * 2^P / (1 + 2^(-Q))
+      xterms |-> [j \in 1..n |-> [q \in 1..Len(liveSeq) |->
+                     [n |-> -N2[liveSeq[q]][j] * w[liveSeq[q]], d |-> d * d,
+                      p |-> CoefP(e[liveSeq[q]], t) + (IF Variant = "grP" THEN 1 ELSE 0),     \* negative control
+                      q |-> CoefQ(e[liveSeq[q]], t)]]],
+      tables |-> [en \in 1..Len(idx) |-> [name |-> idx[en].name, rows |-> LET q == Denote(idx[en].blocks)
+                                                                         IN [m \in 1..Len(q) |-> <<grid[q[m]], q[m]>>]]],
+      condlog2 |-> Max2(-2 * emin, -t) - lo2]
+BuildGr(s) ==
+  LET R  == Stream(s)
+      n  == Draw(R, 1, 2, 4)
+      N1 == OrthoOf(n)[Draw(R, 2, 1, 3)]
+      N2 == OrthoOf(n)[Draw(R, 3, 1, 3)]
+      e  == [i \in 1..n |-> IF i = 1 THEN 0                                             \* largest singular value 1
+                            ELSE IF Draw(R, 20 + i, 0, 7) = 0 THEN NoSigma ELSE GrExps[Draw(R, 10 + i, 1, 7)]]
+      t  == Draw(R, 4, -10, 34)
+      b  == Vector(R, 30, n, -3, 3)
+      cut == [i \in 1..n |-> Draw(R, 40 + i, 0, 1) = 1]
+      idx == IF Draw(R, 5, 0, 3) = 0 /\ n >= 2 THEN InterleavedIdx(n) ELSE ContiguousIdx(n, cut, TRUE)
+  IN GrRecord("gr", s, n, N1, N2, e, t, b, idx, GridOf(idx, n, Draw(R, 6, 0, 3), Draw(R, 7, 1, 3)))
+
 Mat2(a) == <<<<a[1], a[2]>>, <<a[3], a[4]>>>>
 
 Init == /\ ph = 0
@@ -111,6 +187,13 @@ Init == /\ ph = 0
               /\ \E s \in Seed0..(Seed0 + NSeeds - 1) : sys = [k |-> "tik", s |-> s]
            \/ /\ "con" \in Kinds
               /\ \E s \in Seed0..(Seed0 + NSeeds - 1) : sys = [k |-> "con", s |-> s]
+           \/ /\ "gr" \in Kinds
+              /\ \E s \in Seed0..(Seed0 + NSeeds - 1) : sys = [k |-> "gr", s |-> s]
+           \/ /\ "grx" \in Kinds           \* the sub-family small enough for the exact normal equations
+              /\ \E i1, i2 \in 1..3, e1, e2 \in {0, 1}, t \in 0..2, b1, b2 \in {-3, 1, 2} :
+                    sys = [k |-> "grx", N1 |-> Ortho2[i1], N2 |-> Ortho2[i2], e |-> <<e1, e2>>, t |-> t, b |-> <<b1, b2>>]
+           \/ /\ "hist" \in Kinds
+              /\ \E s \in Seed0..(Seed0 + NSeeds - 1) : sys = [k |-> "hist", s |-> s]
            \/ /\ "xt" \in Kinds
               /\ \E a \in [1..4 -> EntrySet], b \in BSet, r \in RSet :
                     sys = [k |-> "xt", A |-> Mat2(a), b |-> b, r |-> r]
@@ -120,6 +203,10 @@ Init == /\ ph = 0
 
 Build(q) == CASE q.k = "tik" -> BuildTik(q.s)
               [] q.k = "con" -> BuildCon(q.s)
+              [] q.k = "hist" -> BuildHist(q.s)
+              [] q.k = "gr"  -> BuildGr(q.s)
+              [] q.k = "grx" -> GrRecord("grx", 0, 2, q.N1, q.N2, q.e, q.t, q.b, ContiguousIdx(2, <<FALSE, FALSE>>, TRUE),
+                                         <<1, 2>>)
               [] q.k = "xt"  -> LET idx == ContiguousIdx(2, [i \in 1..2 |-> ((q.A[1][2] + q.r) % 2) = 0], (q.A[1][1] % 2) = 0)
                                 IN TikRecord("xt", 0, q.A, q.b, q.r, 1, idx, GridOf(idx, 2, 0, 1))
               [] q.k = "xc"  -> ConRecord("xc", 0, q.A, q.b, q.C,
@@ -170,5 +257,42 @@ ConRowScale   == ConSmall => \A d \in Multipliers(sys.p) : RowScaleInvariant(sys
 ConKExp       == IsCon => Len(sys.kexp) = sys.p /\ \A i \in 1..sys.p : \E j \in 1..7 : sys.kexp[i] = KExps[j]
 
 (* ------------------------------ export ------------------------------------------ *)
-EmitRec == (Emit /\ ph = 1 /\ (IsTik \/ WellPosedCon)) => PrintT(ToJson(sys))
+(* ------------------------------ laws: graded spectra ----------------------------- *)
+IsGr == ph = 1 /\ sys.k \in {"gr", "grx"}
+RECURSIVE Pow2(_)
+Pow2(k) == IF k = 0 THEN 1 ELSE 2 * Pow2(k - 1)
+GrOrtho == IsGr => /\ MatMul(sys.N1, Tr(sys.N1)) = ScalePlusDiag(0, sys.N1, sys.d * sys.d)
+                   /\ MatMul(sys.N2, Tr(sys.N2)) = ScalePlusDiag(0, sys.N2, sys.d * sys.d)
+\* (sigma^2 + r) c = sigma in exponents:  sigma^2 + r = 2^(-m) (1 + 2^(-Q)) with m = min(2e, t);  c = 2^P/(1+2^(-Q))  =>  P - m = -e
+GrExponents == IsGr => \A j \in 1..sys.n : \A q \in 1..Len(sys.xterms[j]) :
+                 LET tm == sys.xterms[j][q]
+                     ee == sys.Aterms[1][1][q].e
+                 IN /\ tm.q >= 0 /\ tm.q = (IF sys.t >= 2 * ee THEN sys.t - 2 * ee ELSE 2 * ee - sys.t)
+                    /\ tm.p - Min2(2 * ee, sys.t) = -ee
+\* exact check where the integers fit: with S = d^2 2, Aint = S A (integers), X_j = D x_j (integers, D = d^2 prod_i (2^Q_i + 1)):
+\*    2^t Aint^T Aint X + S^2 X = - 2^t S D Aint^T b
+GrAint == [k \in 1..2 |-> [l \in 1..2 |-> SumSeq([q \in 1..Len(sys.Aterms[k][l]) |->
+                sys.Aterms[k][l][q].n * Pow2(1 - sys.Aterms[k][l][q].e)])]]
+GrD == sys.d * sys.d * (Pow2(sys.xterms[1][1].q) + 1) * (Pow2(sys.xterms[1][2].q) + 1)
+GrX == [j \in 1..2 |-> SumSeq([q \in 1..2 |-> LET tm == sys.xterms[j][q]
+                                             IN tm.n * Pow2(tm.p + tm.q) * (Pow2(sys.xterms[j][3 - q].q) + 1)])]
+GrNormalEq == (ph = 1 /\ sys.k = "grx") =>
+   LET S == sys.d * sys.d * 2
+   IN AddV(ScaleV(Pow2(sys.t), MatVec(Tr(GrAint), MatVec(GrAint, GrX))), ScaleV(S * S, GrX))
+        = ScaleV(-Pow2(sys.t) * S * GrD, MatVec(Tr(GrAint), sys.b))
+GrSplit == IsGr => IsPartition(sys.idx, sys.n)
+
+(* ------------------------------ laws: call histories ---------------------------- *)
+IsHist == ph = 1 /\ sys.k = "hist"
+HistWellPosed == IsHist /\ \A c \in 1..Len(sys.calls) : sys.calls[c].den # 0
+CallSol(c) == [num |-> sys.calls[c].num, den |-> sys.calls[c].den]
+HistLaws == HistWellPosed => \A c \in 1..Len(sys.calls) :
+              LET q == sys.calls[c]
+              IN /\ Solves(KKT(q.A, q.C), KKTRhs(q.A, q.b, q.C), [num |-> q.num \o q.lam, den |-> q.den])
+                 /\ ConstraintExact(q.C, CallSol(c))
+                 /\ GradInRowSpace(q.C, ResGrad(q.A, q.b, CallSol(c)))
+                 /\ Rows(q.A) = sys.m /\ Cols(q.A) = sys.n /\ Rows(q.C) = sys.p        \* one shape per history
+HistModes == IsHist => sys.mode[1] = "fresh" /\ Len(sys.mode) = Len(sys.calls)
+
+EmitRec == (Emit /\ ph = 1 /\ (IsTik \/ WellPosedCon \/ HistWellPosed \/ (IsGr /\ sys.k = "gr"))) => PrintT(ToJson(sys))
 =============================================================================
